@@ -67,6 +67,14 @@ def run(rep, tier, seed, model_ok=True, effort=1):
         except Exception as ex:
             rep.violation("rendering raised %r" % ex, input=dict(version_pattern=vp, state=v._asdict()), **{"class": "render-raises"})
             continue
+        # one search pattern may carry both placeholders: each stands for its own text
+        try:
+            both = impl.v2version.format_version(v, v2patterns.normalize_pattern(vp, "Latest: {version} (PyPI: {pep440_version});"))
+        except Exception as ex:
+            both = "<%s>" % type(ex).__name__
+        if both != "Latest: %s (PyPI: %s);" % (s, p) and "^" not in vp and "$" not in vp:
+            rep.violation("a pattern carrying {version} and {pep440_version} together is not written as the two texts", input=dict(version_pattern=vp, version_text=s, pep440_text=p, written=both),
+                          **{"class": "both-placeholders"})
         txt_items.append("(%s,%s,%s,%s)" % (v2gen.cvinfo(v), cs(vp), cs(s), cs(p)))
         txt_meta.append((vp, s, p))
         ks = version.parse_version(s)
